@@ -196,5 +196,14 @@ for _y in (2021, 2022, 2023):
     NC_CHILD[_y] = {'MarriedFilingJointly': _nc_child(_y, 20000), _q: _nc_child(_y, 20000), 'HeadOfHousehold': _nc_child(_y, 15000),
                     'Single': _nc_child(_y, 10000), 'MarriedFilingSeparately': _nc_child(_y, 10000)}
 
+# N.C. D-401 (bundled for 2023), page "Consumer Use Tax for Taxpayers Who Do Not Have Complete Records of Out-Of-State Purchases": "If Line 14,
+# D-400 is: At Least / But Less Than / Use Tax Amount is": $0 - 2,200 $1; 2,200 - 3,700 2; ... 43,700 - 45,200 30; "45,200 and over  Line 14 x .000675".
+# (upper bound of the row, amount); the same table is printed in the 2021 and 2022 booklets (cited).
+NC_USE_TAX_ROWS = [(2200, 1), (3700, 2), (5200, 3), (6700, 4), (8100, 5), (9600, 6), (11100, 7), (12600, 8), (14100, 9), (15600, 10), (17000, 11), (18500, 12), (20000, 13),
+                   (21500, 14), (23000, 15), (24400, 16), (25900, 17), (27400, 18), (28900, 19), (30400, 20), (31900, 21), (33300, 22), (34800, 23), (36300, 24), (37800, 25),
+                   (39300, 26), (40700, 27), (42200, 28), (43700, 29), (45200, 30)]
+NC_USE_TAX = {2021: NC_USE_TAX_ROWS, 2022: NC_USE_TAX_ROWS, 2023: NC_USE_TAX_ROWS}
+NC_USE_TAX_RATE = '0.000675'
+
 # constants that may appear in the decision "is Form 8959 required": the employer withholding trigger and the status threshold
 ADDL_MEDICARE_SET = {y: {m: {ADDL_MEDICARE_WITHHOLD, v} for m, v in ADDL_MEDICARE[y].items()} for y in (2021, 2022, 2023)}
